@@ -38,7 +38,7 @@ TSAN_FLAGS = [
     "-Wno-deprecated-declarations", "-pthread",
 ]
 RUN_ENV = {
-    "ASAN_OPTIONS": "detect_leaks=0:abort_on_error=0:allocator_may_return_null=1:detect_stack_use_after_return=0:max_allocation_size_mb=4096:allocator_release_to_os_interval_ms=-1:quarantine_size_mb=32",
+    "ASAN_OPTIONS": "detect_leaks=0:abort_on_error=0:allocator_may_return_null=1:detect_stack_use_after_return=0:max_allocation_size_mb=4096:allocator_release_to_os_interval_ms=-1:quarantine_size_mb=32:hard_rss_limit_mb=3000",
     "UBSAN_OPTIONS": "print_stacktrace=1:halt_on_error=1",
     "TSAN_OPTIONS": "halt_on_error=1:second_deadlock_stack=1:exitcode=66",
 }
